@@ -1,5 +1,9 @@
 """C09 - Bulk multiply kernels equal element-wise field multiplication on every path."""
 import vlib
+from checks import archive
+
+PROCS_QUICK = (3, 7)
+PROCS_THOROUGH = (1, 2, 3, 5, 6, 7, 9, 11, 12, 13)
 
 RULE = ("design level: TLC checks for every even length 0..512 (+ lengths around 2^16 and 2^17) and each path that the "
         "block/tail decomposition of Kernels.tla tiles the buffer exactly; conformance: for every path in {portable Go (byte "
@@ -8,7 +12,8 @@ RULE = ("design level: TLC checks for every even length 0..512 (+ lengths around
         "destination offsets (all 256 offset pairs near block boundaries in the thorough tier) x constants incl. 0, 1, 2, 3, "
         "0x8000, 0xFFFF, with buffers ending (or starting) flush against PROT_NONE pages and bracketed by canaries; TLC "
         "judges every word with GF!Mul and asserts the observed no-fault / canary / input-unchanged flags; closure sweep of "
-        "constants x all 65536 word values per path nominates mismatches.  distinct = distinct events.")
+        "constants x all 65536 word values per path nominates mismatches; a reduced list (top constants, chunk boundaries) is "
+        "recorded again in processes started with other GOMAXPROCS values.  distinct = distinct events.")
 ASSUME = ["out-of-bounds access is observed (guard page fault via debug.SetPanicOnFault, canary bytes), not inferred",
           "for buffers > 4 KiB TLC judges three 81-word windows; the remaining words are compared with T.Times (bound by C08) by the harness",
           "FastMul table tied to GF!Mul by TablesOK"]
@@ -20,7 +25,13 @@ def run(ctx):
     def once():
         t = ctx.drive(["c09"], out_name="c09.ndjson")
         ev = vlib.read_ndjson(t)
-        return ev, ctx.judge("Trace_C09", t, parallel=4, xmx="3g")
+        parts = [(ev, ctx.judge("Trace_C09", t, parallel=4, xmx="3g"))]
+        # configurations: the multiplication tables are built at package initialisation; they must not depend on GOMAXPROCS
+        for procs in (PROCS_THOROUGH if ctx.thorough else PROCS_QUICK):
+            t = ctx.drive(["c09", "-mode", "procs"], out_name="c09-procs%d.ndjson" % procs, env_extra={"GOMAXPROCS": str(procs)})
+            parts.append((vlib.read_ndjson(t), ctx.judge("Trace_C09", t, parallel=2, xmx="3g")))
+        ctx.extra["gomaxprocs_values"] = [16] + list(PROCS_THOROUGH if ctx.thorough else PROCS_QUICK)
+        return archive.combine(*parts)
     events, verdicts = once()
     kern = [e for e in events if e["ev"] == "kern"]
 
